@@ -276,7 +276,7 @@ def cases(tier, seed):
             f = rng.choice(lk)
             inv = {"+": "-", "-": "+"}
             step = (f[1] + f[2], f[3] + f[4]) if rng.random() < 0.5 else (f[3] + inv[f[4]], f[1] + inv[f[2]])
-            pl = "P\tpp\t%s,%s\t%s" % (step[0], step[1], rng.choice(["*", f[5]]))
+            pl = "P\tpp\t%s,%s\t%s" % (step[0], step[1], rng.choice(["*", f[5] if f[5] != "*" else "2M"]))
             lines.insert(rng.randrange(0, len(lines) + 1), pl)
         if rng.random() < 0.25:
             rng.shuffle(lines)
